@@ -81,6 +81,26 @@ func descVN(n *vn, depth int) string {
 	case "extract":
 		return descVN(n.args[0], depth+1) + "#" + n.name
 	case "call":
+		// a helper outside the baseline that hands on the result of one call is named by that call (the
+		// working copy returned by a helper is the Clone it made)
+		if call, ok := n.val.(*ssa.Call); ok && inlineHelper != nil {
+			if sc := call.Call.StaticCallee(); sc != nil && inlineHelper(sc) && sc.Signature.Results().Len() == 1 {
+				var inner *ssa.Call
+				same := true
+				for _, b := range sc.Blocks {
+					if r, isRet := b.Instrs[len(b.Instrs)-1].(*ssa.Return); isRet && len(r.Results) == 1 {
+						ic, isCall := r.Results[0].(*ssa.Call)
+						if !isCall || (inner != nil && inner != ic) {
+							same = false
+						}
+						inner = ic
+					}
+				}
+				if same && inner != nil && inner.Call.StaticCallee() != nil {
+					return calleeLabel(&inner.Call) + "()"
+				}
+			}
+		}
 		return n.name + "()"
 	case "phi":
 		return "phi"
@@ -1036,6 +1056,34 @@ func (pe *PEngine) liftToCallers(p *pci, goals []*lin) (bool, string) {
 		}
 		return true
 	}
+	// lengths of a Clone's lists are the lengths of the original's (rule S-clonelen): stated on the original,
+	// the goal is a condition on the parameters
+	{
+		pf := pe.pf(p.fn)
+		var ng []*lin
+		for _, g := range goals {
+			out := newLin()
+			out.c.Set(g.c)
+			for k, co := range g.coef {
+				a := g.atoms[k]
+				if a.op == "len" && len(a.args) == 1 && a.args[0].op == "load" && len(a.args[0].args) == 1 && a.args[0].args[0].op == "fieldaddr" {
+					ld, fa := a.args[0], a.args[0].args[0]
+					base := fa.args[0]
+					if base.op == "call" && strings.HasPrefix(base.name, "(*bt.Tx).Clone") && len(base.args) == 1 {
+						field := fa.name[strings.LastIndex(fa.name, ".")+1:]
+						if cloneLenVerified[pe.P][field] && pf.posDominates(ld.at, base.at) {
+							src := pf.mk("fieldaddr", fa.typ, fa.name, token.ILLEGAL, base.args[0])
+							out = out.addScaled(pf.linOf(pf.mkLen(pf.loadAt(src, nil, ld.typ, base.at))), co)
+							continue
+						}
+					}
+				}
+				out = out.addScaled(linAtom(a), co)
+			}
+			ng = append(ng, out)
+		}
+		goals = ng
+	}
 	for _, g := range goals {
 		for _, a := range g.atoms {
 			if !transl(a, 0) {
@@ -1099,12 +1147,27 @@ func (pe *PEngine) liftToCallers(p *pci, goals []*lin) (bool, string) {
 		if excluded {
 			continue
 		}
+		// what guards the site inside the callee, as far as it speaks about the parameters, may be assumed at
+		// the call: the site is only reached from calls for which it holds
+		var hyp []fact
+		for _, f := range pe.pf(p.fn).factsAt(p.ins.Block()).facts {
+			switch {
+			case f.l != nil:
+				if cl := trLin(f.l); cl != nil {
+					hyp = append(hyp, fact{l: cl, why: "guard of the site inside " + funcName(p.fn)})
+				}
+			case f.neq != nil:
+				if cl := trLin(f.neq); cl != nil {
+					hyp = append(hyp, fact{neq: cl, why: "guard of the site inside " + funcName(p.fn)})
+				}
+			}
+		}
 		for _, g := range goals {
 			cg := trLin(g)
 			if cg == nil {
 				return false, ""
 			}
-			if !cpf.proveAt(e.Site.Block(), pgoal{l: cg}, nil, 0) {
+			if !cpf.proveAt(e.Site.Block(), pgoal{l: cg}, nil, 0) && (len(hyp) == 0 || !cpf.proveAt(e.Site.Block(), pgoal{l: cg}, hyp, 0)) {
 				return false, ""
 			}
 		}
